@@ -3,6 +3,7 @@ Hand-written target types that the random grammar does not produce, shared by se
 user subclasses of builtin containers whose constructor validates, and dataclasses that INHERIT a validating hook.
 Each entry: (description, python type, [values]) - values mix members, element-wise failures and constructor / hook failures.
 """
+import collections.abc
 import typing as t
 
 from . import env
@@ -358,4 +359,58 @@ def unprintable_cases():
         ('dataclass', UK, B), ('dataclass from a sequence', UK, [B]), ('tuple-layout dataclass', UT, [B, 1]), ('key of Dict[str, int]', t.Dict[str, int], {B: 1}),
         ('element of Set[str]', t.Set[str], [B]), ('nested list', t.List[t.List[str]], [[B]]), ('date', __import__('datetime').date, B),
         ('union of containers', t.Union[t.List[int], t.Dict[str, int]], B), ('bool', bool, B), ('key and value', t.Dict[str, str], {B: B}),
+        # one level down: the renderer fuses chains of single-child nodes into one dotted path (D62)
+        ('key of an inner Dict[int, int]', t.Dict[str, t.Dict[int, int]], {'a': {B: 'x'}}), ('key of a Dict[int, int] in a list', t.List[t.Dict[int, int]], [{B: 'x'}]),
+        ('unknown key of a nested dataclass', type('UO', (env.PaneBase,), {'__annotations__': {'inner': UK}, '__module__': __name__}), {'inner': {B: 1, 'zz': 2}}),
+        ('unknown key two levels down', t.Dict[str, t.List[UK]], {'k': [{B: 1}]}), ('key of Dict[int, dataclass]', t.Dict[str, t.Dict[int, UK]], {'k': {B: {'a': 'x'}}}),
+        ('dataclass field holding Dict[int, int]', type('UD', (env.PaneBase,), {'__annotations__': {'d': t.Dict[int, int]}, '__module__': __name__}), {'d': {B: 'x'}}),
     ]
+
+
+# ---- mappings whose keys cannot be hashed -------------------------------------------------------------------------------------------
+class Pairs(collections.abc.Mapping):
+    """A Mapping kept as a list of pairs: its keys need not be hashable."""
+    def __init__(self, pairs): self._p = list(pairs)
+
+    def __getitem__(self, k):
+        for kk, v in self._p:
+            if kk == k:
+                return v
+        raise KeyError(k)
+
+    def __iter__(self): return (k for k, _ in self._p)
+    def __len__(self): return len(self._p)
+    def __repr__(self): return f"Pairs({self._p!r})"
+
+
+def unhashable_key_cases():
+    """[(label, T, values)] - legal Mapping carriers with an unhashable key, with and without the keys the type looks for (D58)."""
+    from pane.annotations import Tagged
+
+    class UP(env.PaneBase):
+        x: int = 0
+
+    class UPX(env.PaneBase, allow_extra=True):
+        x: int = 0
+
+    class UV1(env.PaneBase):
+        kind: t.Literal['a'] = 'a'
+        x: int = 0
+
+    class UV2(env.PaneBase, allow_extra=True):
+        kind: t.Literal['b'] = 'b'
+    bad = lambda *more: Pairs([*more, ([1, 2], 3)])
+    out = [('dataclass', UP, [bad(), bad(('x', 1)), Pairs([('x', 1)]), bad(('x', 'no'))]), ('allow_extra dataclass', UPX, [bad(), bad(('x', 1)), bad(('x', 'no'))]),
+           ('struct literal', {'a': int}, [bad(('a', 1)), bad(), Pairs([('a', 1)])]), ('Dict[str, int]', t.Dict[str, int], [bad(), bad(('k', 1))]),
+           ('Dict[Any, int]', t.Dict[t.Any, int], [bad()]), ('bare dict', dict, [bad()])]
+    for ext in (False, True, ('t', 'c')):
+        U = t.Annotated[t.Union[UV1, UV2], Tagged('kind', external=ext)]
+        if ext is False:
+            vals = [bad(('kind', 'a')), bad(('kind', 'b')), bad(), bad(('kind', 'zz')), Pairs([('kind', 'a'), ('x', 2)]), Pairs([(['u'], 1), ('kind', 'a')])]
+        elif ext is True:
+            vals = [Pairs([('a', bad())]), Pairs([(['u'], {'x': 1})]), Pairs([('b', bad())])]
+        else:
+            vals = [Pairs([('t', 'a'), ('c', bad())]), bad(('t', 'a'), ('c', {})), Pairs([('t', 'b'), ('c', bad())])]
+        out.append((f"tagged union, layout {ext}", U, vals))
+        out.append((f"List[tagged union, layout {ext}]", t.List[U], [[v] for v in vals]))
+    return out
